@@ -317,3 +317,4 @@ _GREASE_MEMO = "            value_type = self._value_type_of(self.code)\n       
 N('benign.grease-memo-keyed-by-class-and-code', [(P + 'tls/grease.py', _GREASE_OLD, _GREASE_MEMO % ('(cls, code)', '(cls, code)', '(cls, code)'))])
 B('C15.grease-memo-keyed-by-code-only', ['C15', 'C19'], [(P + 'tls/grease.py', _GREASE_OLD, _GREASE_MEMO % ('code', 'code', 'code'))], mention=['_VALUE_TYPES'])
 B('C10.grease-helper-wrong-mask', ['C10', 'C15'], [(P + 'tls/grease.py', _GREASE_OLD, "            value_type = self._value_type_of(self.code)\n        self.value = self.get_param_class()(self.code, value_type)\n\n    @classmethod\n    def _value_type_of(cls, code):\n        if code & 0x0f == 0x0a and (code >> 8) & 0x0f in (0x0a, 0x00):\n            return TlsInvalidType.GREASE\n        return TlsInvalidType.UNKNOWN\n")], mention=['grease-decision'])
+B('C09.tpkt-version-not-enforced', ['C09'], [(P + 'tls/rdp.py', "        if parser['version'] != 3:", "        if parser['version'] > 3:")], mention=['TPKT version'])
